@@ -570,6 +570,15 @@ func runParent(e Engine, tier string, seed uint64, workers int, budget time.Dura
 			}
 			out, err := rc.CombinedOutput()
 			if err == nil || !strings.Contains(string(out), "REPRODUCED") {
+				if kf := matchKnown(known, sig, v.v); kf != nil {
+					// A listed finding was observed in this run (its class is
+					// assigned only on the specific evidence described in the
+					// known-findings file); that the recorded case does not
+					// re-trigger it in a fresh process is not an alarm.
+					fmt.Printf("KNOWN-FINDING: property=%s %s [%s] (observed in case %d of this run; the recorded case did not re-trigger it on replay) replay=%s\n", e.Property(), kf.Description, kf.Signature, v.index, path)
+					nKnown++
+					continue
+				}
 				fmt.Fprintf(os.Stderr, "batch: violation %q of case %d did not reproduce on replay in a fresh process: harness nondeterminism\n%s\n", v.v.Class, v.index, out)
 				infra++
 				continue
